@@ -141,7 +141,9 @@ Print Assumptions C18_walk_pattern_partial.
    wildcards: walk / get-all visit exactly what get returns for the concrete paths q that are instances of the
    pattern, where a key or index stands for itself, a wildcard for any key or any index, and a descent for any
    concrete path, the empty one included (dinst).  Without descents dinst is inst (C18_dinst_no_desc), so this
-   contains C18_walk_pattern_partial. *)
+   contains C18_walk_pattern_partial.  (For a descent AFTER a wildcard get_all is the reference JSONPath semantics,
+   which ojg does not follow - known finding C18-wildcard-descent-get; such paths are not generated, so there the
+   theorem says what walk should visit, not what ojg visits.) *)
 Theorem C18_walk_pattern : forall p v c, ends_desc p = false -> keys_unique v = true ->
   (In c (get_all_top p v) <-> exists q, dinst q p /\ cget q v = Some c).
 Proof. exact walk_pattern_desc_top. Qed.
